@@ -129,6 +129,26 @@ def run_check(prop, tier, jobs):
         if os.path.exists(tp):
             cost = json.load(open(tp))
         tasks.sort(key=lambda t: -cost.get('%s/%s' % (t[0].cfg['name'], t[1]), cost.get(t[1], 60)))
+        # C17 / standards: a proof is shared when the extracted text of the function and of everything it inlines is identical
+        shared = []
+        def closure_sig(b, item):
+            fn0 = item.split('@')[0]
+            sp_ = b.model.specs.get(fn0)
+            parts = []
+            for x in sorted(b.closure(fn0)):
+                f_ = b.model.em.by_cname.get(x)
+                if f_ is not None and f_.text:
+                    parts.append(x + '\n' + '\n'.join(f_.text.split('\n')[1:]))
+            return hash('\n'.join(parts))
+        kept = []
+        for (b, item) in tasks:
+            ref = b.cfg.get('dedupe_against')
+            if ref and ref in builts and item.split('@')[0] in builts[ref].model.em.by_cname:
+                if closure_sig(b, item) == closure_sig(builts[ref], item):
+                    shared.append('%s/%s == %s/%s' % (b.cfg['name'], item, ref, item))
+                    continue
+            kept.append((b, item))
+        tasks = kept
         results = []
         with concurrent.futures.ThreadPoolExecutor(max_workers=jobs) as ex:
             futs = [ex.submit(verif.prove, b, fn) for (b, fn) in tasks]
@@ -146,6 +166,9 @@ def run_check(prop, tier, jobs):
                 undecided.append('%s/%s: %s' % (r['cfg'], r['fn'], r['reason']))
                 continue
             t = r['tags'].get(prop, [0, 0])
+            if prop == 'C17':
+                # the property is 'the same contract holds under every standard': every obligation of these proofs is one of C17
+                t = [r['obligations'], r['discharged']]
             obligations += t[0]; discharged += t[1]
             fn_rows.append({'function': r['fn'], 'configuration': r['cfg'], 'source_lines': r.get('lines'),
                             'text_hash': r.get('text_hash'), 'obligations_total': r['obligations'],
@@ -153,7 +176,7 @@ def run_check(prop, tier, jobs):
                             'solver_s': r.get('solver_s'), 'backend': r['backend'], 'loops_closed_by_contract': r.get('loops', 0),
                             'replaced_callees': r.get('replaced', [])})
             for f in r['failed']:
-                if prop not in f['tags']:
+                if prop not in f['tags'] and prop != 'C17':
                     continue
                 kf = [k for k in known if matches(k, prop, r, f)]
                 if kf:
@@ -210,6 +233,7 @@ def run_check(prop, tier, jobs):
                 'proofs_undecided': len(undecided),
                 'undecided': undecided[:40],
                 'configurations': cfgs,
+                'proofs_shared_identical_text': shared,
                 'functions_not_lowered': not_under,
                 'known_findings_hit': sorted({k['id'] for k, _, _ in known_hits}),
                 'bounded_stand_ins': [],
